@@ -1085,6 +1085,8 @@ pub fn monitor(run: &Run) -> (Vec<Finding>, Stats) {
         }
         let mut cur = c0.vec.clone();
         let mut sc = s0;
+        let mut sc_unsure = false;
+        let mut sc_ever_unsure = false;
         let (mut acc, mut rej, mut clamped, mut boundary) = (0u64, 0u64, 0u64, 0u64);
         let mut loop_scores: Vec<f64> = vec![s0];
         for k in 1..=steps_done {
@@ -1137,8 +1139,21 @@ pub fn monitor(run: &Run) -> (Vec<Finding>, Stats) {
             // a proposal identical to the held state, or a step the observations do not
             // determine, says nothing about the decision
             let undetermined = ambig[k as usize] || hamming(&call.vec, &cur) == 0;
+            // an undetermined step whose proposal scored differently from the held score (a scripted score need not be a
+            // function of the state): the held score is then one of two values, and nothing that compares with it is
+            // concluded until a determined acceptance fixes it again
+            if undetermined {
+                match call.score {
+                    Some(x) if !(x == sc) => sc_unsure = true,
+                    _ => {}
+                }
+            }
             match call.score {
-                _ if undetermined => {}
+                _ if undetermined || sc_unsure => {
+                    if let (false, None, true) = (undetermined, call.score, accepted) {
+                        v.push(Finding { property: "C07,C08", what: format!("proposal {} has no defined score but was accepted", k) });
+                    }
+                }
                 None => {
                     if accepted {
                         v.push(Finding { property: "C07,C08", what: format!("proposal {} has no defined score but was accepted", k) });
@@ -1197,20 +1212,20 @@ pub fn monitor(run: &Run) -> (Vec<Finding>, Stats) {
             if accepted {
                 acc += 1;
                 cur = call.vec.clone();
-                if let Some(x) = call.score {
-                    if s.kt_start == 0. && x < sc {
-                        // already reported above as C05
-                    }
+                if let (Some(x), false) = (call.score, undetermined) {
                     sc = x;
+                    sc_unsure = false;
                 }
             } else {
                 rej += 1;
             }
+            sc_ever_unsure |= sc_unsure;
             if inner > 0 && k % inner == 0 {
                 loop_scores.push(sc);
             }
         }
-        if s.kt_start == 0. && sc < s0 {
+        let deep_ambig = deep_ambig || sc_ever_unsure;
+        if s.kt_start == 0. && sc < s0 && !sc_unsure {
             v.push(Finding { property: "C05", what: format!("final score {:?} below the input score {:?} at kt_start = 0", sc, s0) });
         }
         // C05 on the RETURNED state itself (not the scores the optimiser believes it holds): for the scripts that are
